@@ -46,6 +46,11 @@ CHECKS = {
          "property-based testing (rapid): positional binding compared with a reference semantics",
          "Generated search over positional layouts on parser and commands and argv interleaving typed tokens, options and the terminator; every positional field and the overflow into remaining args are compared with R.",
          RNOTE, "DESIGN.md §4 C10"),
+ "C11": ("exploration",
+         "property-based testing (rapid) with boundary-biased value strings, exhaustive enumeration of integer limits per type and base, and native fuzzing; oracle: independent arithmetic references, three-valued",
+         "Generated search over (28 option types x bases 2..36 x choice sets x value text) delivered through --opt=value, default tags and the environment, plus a complete enumeration of integer type x base x limit+-{0,1} every run and (thorough) a 60 s coverage-guided fuzz campaign over (type, base, bytes). Accept/reject and the stored value are compared with an own digit scanner over math/big and with strconv.ParseFloat/time.ParseDuration at the declared width; rejections must be ErrMarshal/ErrInvalidChoice naming the option and listing every choice.",
+         "trusts strconv.ParseFloat, time.ParseDuration, math/big; forms on which Go's conventions and the documentation differ ('+' or '-0' on unsigned) are don't-care: only 'if accepted then denoted value' is checked",
+         "DESIGN.md §4 C11"),
  "C17": ("exploration",
          "property-based testing (rapid): structural layout predicates over help rendered at generated terminal widths through a real pseudo-terminal",
          "Generated search over names in five scripts, descriptions with long words/newlines/blank paragraphs, nesting and terminal widths 1..400 (real pty on fd 0); the rendered help must not panic, be valid UTF-8, start all descriptions in one column (characters), indent continuation lines to it, conserve the words in order, and respect the width when >= 10 columns remain.",
